@@ -790,6 +790,7 @@ func (pm *ProtocolManager) handleTxsMsg(msg *p2p.Msg) error {
 			continue
 		}
 
+		tx := tx // one variable per iteration: the goroutine below must not share the loop variable
 		go func() {
 			// 判断接收到的交易是否在本分支已经存在
 			currentBlock := pm.chain.CurrentBlock()
